@@ -322,6 +322,22 @@ def _ctor(ck, prog):
                 n += 1
     ck.count("children constructed by moves", n)
     ck.floor("children constructed by moves", n, 5)
+    # ... and a child's bookkeeping is what its constructor derived (or the carried delta-max): a move that patches a field of the object it
+    # returns afterwards makes it differ from an object freshly built from the same sequence
+    for m in MOVES:
+        f = prog.fn(SEQ, "Sequence." + m)
+        for a in ast.walk(f.node):
+            if not isinstance(a, (ast.Assign, ast.AugAssign)):
+                continue
+            for t in (a.targets if isinstance(a, ast.Assign) else [a.target]):
+                base = t.value if isinstance(t, ast.Attribute) else (t.value.value if isinstance(t, ast.Subscript) and isinstance(t.value, ast.Attribute) else None)
+                attr = t.attr if isinstance(t, ast.Attribute) else (t.value.attr if isinstance(t, ast.Subscript) and isinstance(t.value, ast.Attribute) else None)
+                if base is None or (isinstance(base, ast.Name) and base.id == "self") or attr not in ("dmax", "seqDeltaMax", "chargePattern", "seq", "len", "phosphosites"):
+                    continue
+                carried = isinstance(a, ast.Assign) and unparse(a.value).replace(" ", "") == "self." + attr and attr == "dmax"
+                ck.ob("CTOR-child", SEQ_PATH + ":Sequence." + m, carried, expected="the returned object's %s is what Sequence(...) derived (delta-max may be carried over from the receiver)" % attr,
+                      found=unparse(a)[:90], slot="child-field:%s@%d" % (attr, a.lineno - f.node.lineno), where=f.loc(a),
+                      note="delta-max is a property of the composition: a value computed from one arrangement is not it (and -1 means 'not computed yet')")
 
 
 def _resolve(f, node, depth=0, stop=()):
